@@ -6,6 +6,9 @@
      [merge_obj]         = merge(odb, ancestor_info, our_info, their_info, allowed)   (335-362)
      [dd_diff], [dd_patch] = dictdiffer.diff / patch on flat dicts (environment model, compared
                            with the real library on every run)
+   The control structure of _diff / _merge / merge is not trusted to the hand-written model: it is
+   regenerated from the source on every run (Gen/Merge.v) and C19_model_is_generated proves the
+   model equal to it.
    A listing is a finite map key -> value (value = the ==-class of a (Meta, HashInfo) pair);
    all theorems hold for ARBITRARY finite maps - no bound on keys, nesting or values.
 
@@ -23,9 +26,28 @@
      C19_default_refuses, and the per-path corollaries. *)
 From Coq Require Import NArith.
 From stdpp Require Import gmap.
-From DvcData Require Import Base.Val Model.Merge Proofs.MergeProofs Proofs.MergeTheorems Proofs.MergeDigest.
+From DvcData Require Import Base.Val Model.Merge Proofs.MergeProofs Proofs.MergeTheorems Proofs.MergeDigest Proofs.MergeGen.
 From DvcData Require Model.Listing.
 Open Scope N_scope.
+
+(* The model the theorems below speak about IS the control structure generated from the current
+   hashfile/tree.py (Gen/Merge.v, translator/mergeunit.py: _diff, _merge statement by statement,
+   the load/_merge/digest skeleton of merge), instantiated with the environment model of
+   dictdiffer ([dd_diff], [dd_patch], [op_kind]), of the message evaluation ([conflict_paths]) and
+   the empty listing. *)
+Theorem C19_model_is_generated :
+  (∀ (a b : gmap (list (list N)) N) pol, diff_ a b pol = g_diff dd_diff op_kind pol a b) ∧
+  (∀ (a o t : gmap (list (list N)) N) pol,
+     merge_ a o t pol = g_merge dd_diff dd_patch op_kind conflict_paths pol a o t) ∧
+  (∀ (oid : Type) (load : oid → option (gmap (list (list N)) N)) (digest : gmap (list (list N)) N → oid)
+     ai oi ti pol,
+     merge_obj load digest ai oi ti pol =
+       g_merge_obj dd_diff dd_patch op_kind conflict_paths load digest ∅ ai oi ti pol).
+Proof.
+  split; [exact diff_is_generated|]. split; [exact merge_is_generated|].
+  intros oid. exact (@merge_obj_is_generated oid).
+Qed.
+Print Assumptions C19_model_is_generated.
 
 (* a successful merge is THE three-way merge *)
 Theorem C19_sound : ∀ (a o t : gmap (list (list N)) N) pol m,
